@@ -77,7 +77,8 @@ def handle (j : Json) : IO Unit := do
   emit case agree spec branch sig note
     (Json.mkObj [("decision", toJson (if r.decision.isPassthrough then "passthrough" else "translation")),
       ("targets", toJson (r.decision.targets.map (·.id))), ("result", toJson (reprStr r.result)),
-      ("declared_path_mismatch", toJson (declaredPathMismatch.map (fun p => p.1 ++ ":" ++ p.2)))])
+      ("declared_path_mismatch", toJson (declaredPathMismatch.map (fun p => p.1 ++ ":" ++ p.2))),
+      ("alias_spellings_not_recognised", toJson aliasSpellingsNotRecognised)])
 
 def main : IO Unit := do forLines (← IO.getStdin) handle
 
